@@ -316,6 +316,14 @@ func (o *Omni) observe(p *Party, r *CallResult) {
 			d := sp.Inbox[len(sp.Inbox)-1]
 			v.Delivery = &d
 			v.IsData = d.Encrypted
+			for _, t := range d.TLVs {
+				if t.Type == refotr.TLVDisconnected {
+					// otr3 abandons a key exchange in progress when the peer ends the session; the
+					// specification leaves the authentication state open at this point, so the
+					// shadow follows the implementation's (compatible) choice
+					sp.AuthState = refotr.AuthNone
+				}
+			}
 		}
 		if err != nil && (v.Check == "mac" || v.Check == "ctr-replay" || v.Check == "ctr-zero" || v.Check == "recipient-keyid" || v.Check == "sender-keyid" || v.Check == "not-encrypted" || v.Check == "tlv" || v.Check == "nextdh-range") {
 			v.IsData = true
